@@ -36,6 +36,46 @@ theorem lv_startsId (c : JCtx) (lv : Expr) (hf : JsOkLv lv = true) : StartsId (t
       · simp only [toJsE, hm, if_false]; exact startsId_id v (jsIdOk_nonkw v hv)
     | glob => simp only [toJsE]; exact startsId_mem_jid "_global" v (by decide)
     | prop => simp only [toJsE]; exact startsId_mem_jid "this" v (by decide)
+  | oprop v o =>
+    cases o with
+    | var k n =>
+      cases k <;> simp only [JsOkLv, Bool.and_eq_true] at hf
+      · by_cases hm : n = "me".toList
+        · simp only [toJsE, hm, if_true]
+          exact ⟨"this".toList, [.p .dot, .id v], by simp [prJ, jid, wrapRecv, JE.needsParen], by decide⟩
+        · simp only [toJsE, hm, if_false]
+          exact ⟨n, [.p .dot, .id v], by simp [prJ, wrapRecv, JE.needsParen], jsIdOk_nonkw n hf.2⟩
+      · by_cases hm : n = "me".toList
+        · simp only [toJsE, hm, if_true]
+          exact ⟨"this".toList, [.p .dot, .id v], by simp [prJ, jid, wrapRecv, JE.needsParen], by decide⟩
+        · simp only [toJsE, hm, if_false]
+          exact ⟨n, [.p .dot, .id v], by simp [prJ, wrapRecv, JE.needsParen], jsIdOk_nonkw n hf.2⟩
+      · simp only [toJsE]
+        exact ⟨"_global".toList, [.p .dot, .id n, .p .dot, .id v], by simp [prJ, jid, wrapRecv, JE.needsParen], by decide⟩
+      · simp only [toJsE]
+        exact ⟨"this".toList, [.p .dot, .id n, .p .dot, .id v], by simp [prJ, jid, wrapRecv, JE.needsParen], by decide⟩
+    | _ => simp [JsOkLv] at hf
+  | the t k as =>
+    match as, hf with
+    | [e], hf =>
+      simp only [JsOkLv, Bool.and_eq_true] at hf
+      have hk := hf.1
+      cases t with
+      | sound =>
+        exact ⟨"sound".toList, .p .lp :: (prJArgs [toJsE c e] ++ [.p .rp, .p .dot, .id ((tblLookupIdx tblSound k).getD "UNKNOWN".toList)]),
+          by simp [toJsE, toJsEs, toJsThe, jcall, prJ, wrapRecv, JE.needsParen], by decide⟩
+      | sprite =>
+        exact ⟨"sprite".toList, .p .lp :: (prJArgs [toJsE c e] ++ [.p .rp, .p .dot, .id ((tblLookupIdx tblSprite k).getD "UNKNOWN".toList)]),
+          by simp [toJsE, toJsEs, toJsThe, jcall, prJ, wrapRecv, JE.needsParen], by decide⟩
+      | cast =>
+        exact ⟨"member".toList, .p .lp :: (prJArgs [toJsE c e] ++ [.p .rp, .p .dot, .id ((tblLookupIdx tblCast k).getD "UNKNOWN".toList)]),
+          by simp [toJsE, toJsEs, toJsThe, jcall, prJ, wrapRecv, JE.needsParen], by decide⟩
+      | video =>
+        exact ⟨"member".toList, .p .lp :: (prJArgs [toJsE c e] ++ [.p .rp, .p .dot, .id ((tblLookupIdx tblVideo k).getD "UNKNOWN".toList)]),
+          by simp [toJsE, toJsEs, toJsThe, jcall, prJ, wrapRecv, JE.needsParen], by decide⟩
+      | _ => simp [theTbl] at hk
+    | [], hf => simp [JsOkLv] at hf
+    | _ :: _ :: _, hf => simp [JsOkLv] at hf
   | _ => simp [JsOkLv] at hf
 
 theorem toJsS_ok (hs : List Spec.Name) (s : Stmt) (hf : JsOkS s = true) :
@@ -44,7 +84,7 @@ theorem toJsS_ok (hs : List Spec.Name) (s : Stmt) (hf : JsOkS s = true) :
   | set lv v =>
     simp only [JsOkS, Bool.and_eq_true] at hf
     obtain ⟨_, l1, l2⟩ := lv_ok { handlers := hs, inTell := false } lv hf.1
-    exact ⟨⟨l1, toJsE_lexok _ v hf.2⟩, ⟨l2, lv_startsId _ lv hf.1, toJsE_frag _ v (jsOk_src v hf.2)⟩⟩
+    exact ⟨⟨l1, toJsE_lexok _ v hf.2⟩, ⟨l2, lv_startsId _ lv hf.1, toJsE_fragJ _ v hf.2⟩⟩
   | call f as =>
     by_cases hr : f = "return".toList
     · subst hr
@@ -56,7 +96,7 @@ theorem toJsS_ok (hs : List Spec.Name) (s : Stmt) (hf : JsOkS s = true) :
         | nil =>
           have he : JsOkE e = true := by simpa using hf
           simp only [toJsS, if_true, toJsEs, LexOKS, ReadOKS]
-          exact ⟨toJsE_lexok _ e he, retOK_frag _ (toJsE_frag _ e (jsOk_src e he))⟩
+          exact ⟨toJsE_lexok _ e he, retOK_frag _ (toJsE_fragJ _ e he)⟩
         | cons _ _ => simp at hf
     · have hr' : ¬ f = "return".toList := hr
       simp only [JsOkS, hr', if_false] at hf
@@ -64,7 +104,7 @@ theorem toJsS_ok (hs : List Spec.Name) (s : Stmt) (hf : JsOkS s = true) :
       simp only [Bool.and_eq_true, Bool.not_eq_true'] at hf
       obtain ⟨⟨⟨hid, hsp⟩, _⟩, _⟩ := hf
       have hlex := toJsE_lexok { handlers := hs, inTell := false } (.call f as) hk
-      have hfr := toJsE_frag { handlers := hs, inTell := false } (.call f as) (jsOk_src _ hk)
+      have hfr := toJsE_fragJ { handlers := hs, inTell := false } (.call f as) hk
       have hts : toJsS { handlers := hs, inTell := false } (.call f as) =
           if hs.contains f then JS.expr (jcall "fn_call" [toJsE { handlers := hs, inTell := false } (.call f as)])
           else JS.expr (toJsE { handlers := hs, inTell := false } (.call f as)) := by
@@ -80,6 +120,16 @@ theorem toJsS_ok (hs : List Spec.Name) (s : Stmt) (hf : JsOkS s = true) :
   | exit =>
     simp only [toJsS, jcall, LexOKS, ReadOKS, LexOK, LexOKL, JFrag, JFragL]
     exact ⟨⟨by decide, trivial⟩, ⟨by decide, trivial⟩, startsId_call_id _ _ (by decide)⟩
+  | delete t =>
+    simp only [JsOkS, Bool.and_eq_true] at hf
+    have ht : JsOkE t = true := hf.1
+    simp only [toJsS, jcall, LexOKS, ReadOKS, LexOK, LexOKL, JFrag, JFragL]
+    exact ⟨⟨by decide, toJsE_lexok _ t ht, trivial⟩, ⟨by decide, toJsE_fragJ _ t ht, trivial⟩, startsId_call_id _ _ (by decide)⟩
+  | hilite t =>
+    simp only [JsOkS, Bool.and_eq_true] at hf
+    have ht : JsOkE t = true := hf.1
+    simp only [toJsS, jcall, LexOKS, ReadOKS, LexOK, LexOKL, JFrag, JFragL]
+    exact ⟨⟨by decide, toJsE_lexok _ t ht, trivial⟩, ⟨by decide, toJsE_fragJ _ t ht, trivial⟩, startsId_call_id _ _ (by decide)⟩
   | _ => simp [JsOkS] at hf
 
 theorem toJsSs_ok (hs : List Spec.Name) : ∀ (ss : List Stmt), JsOkSs ss = true →
@@ -105,13 +155,13 @@ theorem toJsT_ok (hs : List Spec.Name) : ∀ (s : Stmt), JsOkT s = true →
     obtain ⟨t1, t2⟩ := toJsTs_ok hs t ht
     obtain ⟨e1, e2⟩ := toJsTs_ok hs e he
     simp only [toJsS, LexOKS, ReadOKS]
-    exact ⟨⟨toJsE_lexok _ c hc, t1, e1⟩, ⟨toJsE_frag _ c (jsOk_src c hc), t2, e2⟩⟩
+    exact ⟨⟨toJsE_lexok _ c hc, t1, e1⟩, ⟨toJsE_fragJ _ c hc, t2, e2⟩⟩
   | .repeatWhile c b, hf => by
     simp only [JsOkT, Bool.and_eq_true] at hf
     obtain ⟨hc, hb⟩ := hf
     obtain ⟨b1, b2⟩ := toJsTs_ok hs b hb
     simp only [toJsS, LexOKS, ReadOKS]
-    exact ⟨⟨toJsE_lexok _ c hc, b1⟩, ⟨toJsE_frag _ c (jsOk_src c hc), b2⟩⟩
+    exact ⟨⟨toJsE_lexok _ c hc, b1⟩, ⟨toJsE_fragJ _ c hc, b2⟩⟩
   | .repeatWith lv a b down body, hf => by
     cases lv with
     | var k v =>
@@ -122,11 +172,11 @@ theorem toJsT_ok (hs : List Spec.Name) : ∀ (s : Stmt), JsOkT s = true →
         have hvk : JsOkE (.var .loc v) = true := by simp only [JsOkE, Bool.or_eq_true]; exact Or.inr hv
         obtain ⟨b1, b2⟩ := toJsTs_ok hs body hbody
         have lv1 := toJsE_lexok { handlers := hs, inTell := false } _ hvk
-        have lv2 := toJsE_frag { handlers := hs, inTell := false } _ (jsOk_src _ hvk)
+        have lv2 := toJsE_fragJ { handlers := hs, inTell := false } _ hvk
         have lb1 := toJsE_lexok { handlers := hs, inTell := false } b hb
-        have lb2 := toJsE_frag { handlers := hs, inTell := false } b (jsOk_src b hb)
+        have lb2 := toJsE_fragJ { handlers := hs, inTell := false } b hb
         simp only [toJsS, LexOKS, ReadOKS]
-        refine ⟨⟨lv1, toJsE_lexok _ a ha, ?_, b1⟩, ⟨lv2, toJsE_frag _ a (jsOk_src a ha), ?_, b2⟩⟩
+        refine ⟨⟨lv1, toJsE_lexok _ a ha, ?_, b1⟩, ⟨lv2, toJsE_fragJ _ a ha, ?_, b2⟩⟩
         · cases down
           · exact ⟨by decide, lv1, lb1⟩
           · exact ⟨by decide, lv1, lb1⟩
@@ -136,8 +186,8 @@ theorem toJsT_ok (hs : List Spec.Name) : ∀ (s : Stmt), JsOkT s = true →
       | _ => simp [JsOkT] at hf
     | _ => simp [JsOkT] at hf
   | .put .., hf => by simp [JsOkT] at hf
-  | .delete _, hf => by simp [JsOkT] at hf
-  | .hilite _, hf => by simp [JsOkT] at hf
+  | .delete t, hf => by simp only [JsOkT] at hf; exact toJsS_ok hs _ hf
+  | .hilite t, hf => by simp only [JsOkT] at hf; exact toJsS_ok hs _ hf
   | .mcall .., hf => by simp [JsOkT] at hf
   | .tell .., hf => by simp [JsOkT] at hf
   | .repeatIn .., hf => by simp [JsOkT] at hf
@@ -296,6 +346,8 @@ theorem toJsS_noVar (c : JCtx) (s : Stmt) (hf : JsOkT s = true) : NoVar (toJsS c
   | ifThen c t e => simp [toJsS, NoVar]
   | repeatWhile c b => simp [toJsS, NoVar]
   | repeatWith v a b d body => simp [toJsS, NoVar]
+  | delete t => simp [toJsS, NoVar]
+  | hilite t => simp [toJsS, NoVar]
   | _ => simp [JsOkT] at hf
 
 theorem toJsSs_head_noVar (c : JCtx) (ss : List Stmt) (hf : JsOkTs ss = true) : ∀ s ∈ (toJsSs c ss).head?, NoVar s := by
